@@ -96,6 +96,15 @@ func (h *hasher) walk(v reflect.Value, depth int) {
 			h.walk(v.Index(i), depth+1)
 			h.sb.WriteString(",")
 		}
+		if v.Kind() == reflect.Slice && v.Cap() > v.Len() && h.limit == 0 {
+			// the spare capacity of the backing array: an append through another slice header writes there
+			spare := v.Slice(0, v.Cap())
+			h.sb.WriteString("|spare:")
+			for i := v.Len(); i < spare.Len(); i++ {
+				h.walk(spare.Index(i), depth+1)
+				h.sb.WriteString(",")
+			}
+		}
 		h.sb.WriteString("]")
 	case reflect.Map:
 		if v.IsNil() {
